@@ -12,6 +12,53 @@ from ..model import Repo, ancestors, body_nodes, norm, parent, short
 from .common import stale_bindings, dispatch_ops, op_table, trace_str
 
 
+def _is_get_adapter(e) -> bool:
+    return isinstance(e, ast.Call) and isinstance(e.func, ast.Attribute) and e.func.attr == "get_adapter"
+
+
+def chosen_adapter(f, c):
+    """the `get_adapter(A, B)` call whose result `c` (= `<x>.assign(...)`) is applied to, or None.
+    <x> is that call itself or a local of f whose every binding is such a call (`adapter = self.get_adapter(a, b)`)."""
+    if not (isinstance(c, ast.Call) and isinstance(c.func, ast.Attribute) and c.func.attr == "assign"):
+        return None
+    x = c.func.value
+    if _is_get_adapter(x):
+        return x
+    if isinstance(x, ast.Name):
+        vals = [st.value for st in body_nodes(f.node) if isinstance(st, ast.Assign) and any(isinstance(t, ast.Name) and t.id == x.id for t in st.targets)]
+        other = [1 for n in body_nodes(f.node) if isinstance(n, ast.Name) and n.id == x.id and isinstance(n.ctx, ast.Store)]
+        if vals and len(vals) == len(other) and all(_is_get_adapter(v) for v in vals) and len({norm(v) for v in vals}) == 1:
+            return vals[0]
+    return None
+
+
+def recursion_wrapper(repo, f, c):
+    """`self.<m>(old, node, new)` where <m> is a method of the adapters that does nothing but choose the adapter for
+    its (old, new) parameters and delegate to its assign(): returns (method, inner assign call) or None"""
+    if not (isinstance(c, ast.Call) and isinstance(c.func, ast.Attribute) and isinstance(c.func.value, ast.Name) and c.func.value.id == "self" and f.cls is not None):
+        return None
+    if c.func.attr in ("assign", "value_assign", "get_adapter"):
+        return None
+    m = repo.lookup_method(f.cls, c.func.attr)
+    if m is None or not m.module.rel.startswith("_adapter/"):
+        return None
+    calls = [x for x in body_nodes(m.node) if isinstance(x, ast.Call) and isinstance(x.func, ast.Attribute) and x.func.attr in ("assign", "value_assign")]
+    if len(calls) != 1 or len(c.args) != 3 or c.keywords:
+        return None
+    ga = chosen_adapter(m, calls[0])
+    ps = [p for p in m.params if p != "self"]
+    if ga is None or len(ps) != 3 or len(ga.args) != 2 or len(calls[0].args) != 3:
+        return None
+    if [norm(a) for a in calls[0].args] != ps or [norm(a) for a in ga.args] != [ps[0], ps[2]]:
+        return None
+    return m, calls[0]
+
+
+def is_recursion(repo, f, c) -> bool:
+    """c recurses into a pair of elements: get_adapter(o, n).assign(o, node, n), as written or through a local / a delegating method"""
+    return chosen_adapter(f, c) is not None or recursion_wrapper(repo, f, c) is not None
+
+
 def check(repo: Repo, rep, tier):
     rep.not_decided = "optimality of the alignment (longest common subsequence); survival of element text through generic_sequence_update"
     match_guard(repo, rep)
@@ -433,9 +480,10 @@ def adapter_args_agree(repo: Repo, rep):
         if not f.module.rel.startswith("_adapter/"):
             continue
         for c in body_nodes(f.node):
-            if isinstance(c, ast.Call) and isinstance(c.func, ast.Attribute) and c.func.attr == "assign" and isinstance(c.func.value, ast.Call) and isinstance(c.func.value.func, ast.Attribute) and c.func.value.func.attr == "get_adapter" and len(c.args) == 3 and len(c.func.value.args) == 2:
+            cho = chosen_adapter(f, c)
+            if cho is not None and len(c.args) == 3 and len(cho.args) == 2:
                 n += 1
-                ga = c.func.value.args
+                ga = cho.args
                 if norm(ga[0]) == norm(c.args[0]) and norm(ga[1]) == norm(c.args[2]):
                     rep.ok("R-ADAPTER-ARGS", f, c, "get_adapter(old, new).assign(old, node, new)")
                 else:
@@ -704,7 +752,7 @@ def pair_recurse(repo: Repo, rep):
                     "a partly changed nested list/dict/call is regenerated and its unchanged hand-written parts are lost",
                     construct=f"{f.qualname}:value_assign-in-loop",
                 )
-            if c.func.attr == "assign" and isinstance(c.func.value, ast.Call) and isinstance(c.func.value.func, ast.Attribute) and c.func.value.func.attr == "get_adapter" and in_loop:
+            if is_recursion(repo, f, c) and in_loop:
                 rec += 1
                 rep.ok("R-PAIR-RECURSE", f, c, "paired elements recurse through get_adapter(...).assign()")
         if rec == 0:
@@ -933,7 +981,7 @@ def key_routing(repo: Repo, rep):
                     else:
                         rep.ok("R-KEY-ROUTING", f, c, "insertion queued only for keys absent from the old value")
         # recursion over keys present in both
-        recs = [n for n in cfg.live for c in node_calls(n) if isinstance(c.func, ast.Attribute) and c.func.attr == "assign" and isinstance(c.func.value, ast.Call) and isinstance(c.func.value.func, ast.Attribute) and c.func.value.func.attr == "get_adapter"]
+        recs = [n for n in cfg.live for c in node_calls(n) if is_recursion(repo, f, c)]
         keyed = []
         for n in recs:
             facts = facts_at(cfg, n)
